@@ -22,6 +22,7 @@ import (
 	"sort"
 	"strings"
 	"sync"
+	"time"
 	"unicode"
 	"unicode/utf8"
 
@@ -149,6 +150,7 @@ func columnsOf(kids []node, path []string, reps []int, out *[]column) {
 // ---------------------------------------------------------------- value pools (token <-> concrete value)
 
 var long300 = strings.Repeat("0123456789abcdef", 19)[:300]
+var k63 = strings.Repeat("k", 63)
 var long70k = strings.Repeat("The quick brown fox \x00\xff jumps. ", 2400)[:70000]
 
 var pools = map[string][]interface{}{
@@ -159,7 +161,11 @@ var pools = map[string][]interface{}{
 	"float32": {float32(0), math.Float32frombits(0x80000000), float32(1), float32(-1), float32(math.Inf(1)), float32(math.Inf(-1)), math.Float32frombits(0x7fc00000), math.Float32frombits(0x7fc12345), math.Float32frombits(0xffa00001), math.Float32frombits(1), float32(math.MaxFloat32), float32(-math.MaxFloat32), float32(1.17549435e-38), float32(3.14159), float32(-2.5), float32(1e10)},
 	"float64": {float64(0), math.Float64frombits(0x8000000000000000), float64(1), float64(-1), math.Inf(1), math.Inf(-1), math.Float64frombits(0x7ff8000000000000), math.Float64frombits(0x7ff8000000abcdef), math.Float64frombits(0xfff4000000000001), math.Float64frombits(1), math.MaxFloat64, -math.MaxFloat64, 2.2250738585072014e-308, 3.14159, -2.5, 1e100},
 	"bool":    {false, true},
-	"string":  {"", "a", "b", "__#NIL#__", "\xff", "\xff\xfe", long300, "a\x00b", "zz", "Z", "ä", " ", "__#NIL#__x", "\x00", "abc", "ab", "__#NIL#_", "~", "\xc3\x28", "A"},
+	"string":  {"", "a", "b", "__#NIL#__", "\xff", "\xff\xfe", long300, "a\x00b", "zz", "Z", "ä", " ", "__#NIL#__x", "\x00", "abc", "ab", "__#NIL#_", "~", "\xc3\x28", "A",
+		// long strings that share long prefixes and have 0xff bytes around the lengths at which a writer might truncate statistics,
+		// and strings that look like the tail of a file (length + magic)
+		k63, k63 + "\xff", k63 + "\xfftail", k63 + "k", k63[:15] + "\xff\xfft", k63[:31] + "\xff\xfft", k63 + k63 + "k\xff\xfft",
+		k63 + k63 + k63 + k63 + "kkk\xff\xfft", "\xff\xff\xff\xffPAR1", "PAR1", k63[:7] + "\xff\xfft", k63 + "\x00"},
 }
 
 // bigPools add a 70 kB string; used by the random drivers only.
@@ -733,6 +739,7 @@ type jobCase struct {
 	Expect    interface{} `json:"expect,omitempty"`  // logical rows of a foreign file
 	KeepFile  string      `json:"keepfile,omitempty"`
 	Light     bool        `json:"light,omitempty"` // omit page level/value detail from events
+	Bulk      *bulkSpec   `json:"bulk,omitempty"`  // a workload too large for one trace event per record: compared in Go, judged as one event
 	Sched     interface{} `json:"sched,omitempty"` // instances + schedule (C13), see sched.go
 	ReadFile  string      `json:"readfile,omitempty"` // read this file instead of writing one (C15); Expect holds its logical rows
 }
@@ -752,6 +759,11 @@ func emit(e event) {
 	}
 	out.Write(b)
 	out.WriteByte('\n')
+	if aborted != "" && (e["ev"] == "Read" || e["ev"] == "Bulk") {
+		out.WriteString(`{"ev":"Aborted","detail":"driver stopped after a runaway call"}` + "\n")
+		out.Flush()
+		os.Exit(0)
+	}
 }
 
 // ---------------------------------------------------------------- projection of sink bytes
@@ -1080,6 +1092,47 @@ func protect(f func()) (panicked string) {
 	return ""
 }
 
+// guarded runs f like protect, but gives up when f does not return in time or the heap explodes: a reader that loops
+// or allocates without bound on some input is a verdict about the library ("runaway"), not a dead driver.  After a
+// runaway the process cannot be trusted any more: the event that carries the verdict is written, then the driver exits.
+var aborted string
+
+func guarded(f func()) string {
+	limit := 90 * time.Second
+	if v := os.Getenv("VERIF_CALL_TIMEOUT"); v != "" {
+		if d, err := time.ParseDuration(v); err == nil {
+			limit = d
+		}
+	}
+	const memLimit = 6 << 30
+	done := make(chan string, 1)
+	go func() { done <- protect(f) }()
+	t := time.NewTicker(25 * time.Millisecond)
+	defer t.Stop()
+	start := time.Now()
+	var ms runtime.MemStats
+	n := 0
+	for {
+		select {
+		case p := <-done:
+			return p
+		case <-t.C:
+			n++
+			if time.Since(start) > limit {
+				aborted = fmt.Sprintf("runaway: the call did not return within %s", limit)
+				return aborted
+			}
+			if n%4 == 0 {
+				runtime.ReadMemStats(&ms)
+				if ms.HeapAlloc > memLimit {
+					aborted = fmt.Sprintf("runaway: heap grew to %d MiB during the call", ms.HeapAlloc>>20)
+					return aborted
+				}
+			}
+		}
+	}
+}
+
 func resOf(err error, pan string) string {
 	if pan != "" {
 		return "panic"
@@ -1211,7 +1264,11 @@ func runReader(file []byte, src *source, poff int, limit int, stableCheck bool) 
 	res := readResult{stable: true, exclZero: true, rows: []interface{}{}}
 	var r *ParquetReader
 	var err error
-	res.pan = protect(func() { r, err = NewParquetReader(src) })
+	res.pan = guarded(func() { r, err = NewParquetReader(src) })
+	if aborted != "" {
+		res.openRes = "panic"
+		return res
+	}
 	res.openRes, res.openErr = resOf(err, res.pan), errStr(err)
 	if err != nil || res.pan != "" || r == nil {
 		res.srcCalls, res.srcReads, res.faulted = src.nCalls, src.nReads, src.faulted
@@ -1220,7 +1277,7 @@ func runReader(file []byte, src *source, poff int, limit int, stableCheck bool) 
 	}
 	var kept []*Rec
 	var keptAbs []interface{}
-	pan := protect(func() {
+	pan := guarded(func() {
 		res.rowsRep = r.Rows()
 		for r.Next() {
 			res.nexts++
@@ -1250,6 +1307,10 @@ func runReader(file []byte, src *source, poff int, limit int, stableCheck bool) 
 	})
 	if pan != "" {
 		res.pan = pan
+	}
+	if aborted != "" {
+		// the abandoned goroutine may still be writing into res: report a fresh, minimal result
+		return readResult{openRes: "ok", pan: aborted, rows: []interface{}{}, stable: true, exclZero: true}
 	}
 	res.srcCalls, res.srcReads, res.faulted = src.nCalls, src.nReads, src.faulted
 	return res
@@ -1371,6 +1432,107 @@ func countAdds(c jobCase) (written int) {
 	return
 }
 
+// bulkSpec: n records generated from their index (record i: leaf k holds token (i*7+k*3) mod 16, an optional is nil
+// when (i+k) mod 3 == 0, a list has (i+k) mod 4 elements), written in the given batches, read back and compared here.
+type bulkSpec struct {
+	N       int   `json:"n"`
+	Batches []int `json:"batches"`
+}
+
+func bulkAbstract(kids []node, i int, salt int) []interface{} {
+	var out []interface{}
+	for idx, n := range kids {
+		n := n
+		my := salt*5 + idx + 1
+		one := func(j int) interface{} {
+			if n.Typ == "group" {
+				return bulkAbstract(n.Kids, i+j, my)
+			}
+			return (i*7 + my*3 + j*5) % 16
+		}
+		switch n.Rep {
+		case "req":
+			out = append(out, one(0))
+		case "opt":
+			if (i+my)%3 == 0 {
+				out = append(out, []interface{}{})
+			} else {
+				out = append(out, []interface{}{one(0)})
+			}
+		default:
+			l := []interface{}{}
+			for j := 0; j < (i+my)%4; j++ {
+				l = append(l, one(j))
+			}
+			out = append(out, l)
+		}
+	}
+	return out
+}
+
+func runBulk(c jobCase) {
+	ctx := buildCtx{poff: c.Poff}
+	snk := &sink{}
+	var w *ParquetWriter
+	var err error
+	res := event{"ev": "Bulk", "n": c.Bulk.N, "batches": c.Bulk.Batches, "werr": "", "rerr": "", "nread": 0, "rowsrep": 0, "firstbad": -1, "pan": ""}
+	gen := func(i int) *Rec {
+		rec := new(Rec)
+		ctx.fill(reflect.ValueOf(rec).Elem(), bulkAbstract(schemaRoot, i, 0))
+		return rec
+	}
+	pan := guarded(func() {
+		w, err = NewParquetWriter(snk, MaxPageSize(c.Page), codecOpt[c.Codec])
+		if err != nil {
+			return
+		}
+		i := 0
+		for _, b := range c.Bulk.Batches {
+			for j := 0; j < b; j++ {
+				w.Add(*gen(i))
+				i++
+			}
+			if err = w.Write(); err != nil {
+				return
+			}
+		}
+		err = w.Close()
+	})
+	if pan != "" || err != nil {
+		res["werr"], res["pan"] = errStr(err), pan
+		emit(res)
+		return
+	}
+	res["size"] = len(snk.buf)
+	var r *ParquetReader
+	pan = guarded(func() {
+		r, err = NewParquetReader(&source{data: snk.buf})
+		if err != nil {
+			return
+		}
+		res["rowsrep"] = r.Rows()
+		n := 0
+		for r.Next() {
+			rec := new(Rec)
+			r.Scan(rec)
+			if n < c.Bulk.N && res["firstbad"].(int) < 0 {
+				want := ctx.abstract(reflect.ValueOf(gen(n)).Elem())
+				if !reflect.DeepEqual(ctx.abstract(reflect.ValueOf(rec).Elem()), want) {
+					res["firstbad"] = n
+				}
+			}
+			n++
+			if n > c.Bulk.N+10 {
+				break
+			}
+		}
+		res["nread"] = n
+		err = r.Error()
+	})
+	res["rerr"], res["pan"] = errStr(err), pan
+	emit(res)
+}
+
 func runCase(c jobCase) {
 	if c.Page == 0 {
 		c.Page = 1000
@@ -1382,6 +1544,10 @@ func runCase(c jobCase) {
 	emit(event{"ev": "Reset", "case": c.ID, "schema": schemaRoot, "cols": cols, "max": c.Page, "codec": c.Codec, "codecn": codecNum[c.Codec], "poff": c.Poff})
 	if c.Foreign != nil {
 		runForeign(c)
+		return
+	}
+	if c.Bulk != nil {
+		runBulk(c)
 		return
 	}
 	if c.Sched != nil {
